@@ -41,10 +41,111 @@ def unx(x):
 
 # ----------------------------------------------------------------------------- check A
 
-def planner_stream(args, stats, lock=None):
+VM = []     # VMCASE lines (sampled planner operations + the extracted model's result as a Coq term)
+VMC = []    # the same for the corpus (every operation)
+
+
+def coq_id(x):
+    return C.coq_hex(x[1:])
+
+
+def coq_emap(s):
+    out = []
+    if s != ".":
+        for e in s.split(";"):
+            k, i, c, rt, a = e.split(",")
+            out.append("(%s, mkE %s %d%%N %s %s)" % (coq_id(k), coq_id(i), int(c), "None" if rt == "-" else "(Some %d%%N)" % int(rt),
+                                                  {"n": "ANone", "s": "AStart", "x": "AStop"}[a]))
+    return "(%s : emap)" % C.coq_list(out)
+
+
+def coq_cmap(s):
+    out = []
+    if s != ".":
+        for e in s.split(";"):
+            k, c = e.split(",")
+            out.append("(%s, %s)" % (coq_id(k), "None" if c == "-" else "Some %d%%N" % int(c)))
+    return "(%s : cmap)" % C.coq_list(out)
+
+
+def vm_terms(vmlines):
+    """Input side printed HERE from the dump the Go harness emitted (independent of ocaml/cluster.ml's parser)."""
+    terms, exp, labels = [], [], []
+    for l in vmlines:
+        _, op, arg, sin, sdes, sout, term = l.split("\t")
+        if op == "new":
+            t = "new_entries %s" % coq_cmap(sin)
+        elif op == "build":
+            t = "let cur := %s in let des := %s in (build_pending repaired (keys cur) cur des, hygienicb (ids_of cur des), %s)" % (
+                coq_emap(sin), coq_emap(sdes), "false" if sout == "nil" else "plan_okb cur des %s" % coq_emap(sout))
+        elif op == "actions":
+            t = "pending_actions %s" % coq_emap(sin)
+        elif op == "commit":
+            t = "commit %s" % coq_emap(sin)
+        elif op == "remove":
+            t = "remove_entry %s %s" % (coq_id(arg), coq_emap(sin))
+        elif op == "setrt":
+            k, i = arg.split(",")
+            t = "set_runtime %s %d%%N %s" % (coq_id(k), int(i), coq_emap(sin))
+        elif op == "clrrt":
+            t = "clear_runtime %s %s" % (coq_id(arg), coq_emap(sin))
+        elif op == "count":
+            t = "count %s" % coq_emap(sin)
+        else:
+            continue
+        terms.append(t)
+        exp.append(term)
+        labels.append("planner %s(%s) on %s / %s" % (op, arg, sin, sdes))
+    return terms, exp, labels
+
+
+CSTATE = {"R": "CRunning", "L": "CReloading", "P": "CStopping", "D": "CStopped", "?Error": "CError"}
+BEH = {"r": "BReady", "n": "BNever", "e": "BError"}
+
+
+def coq_event(tok):
+    tag, _, rest = tok.partition(":")
+    if tag == "O":
+        return "(EOffer %s)" % coq_cmap(rest)
+    if tag in ("SA", "SR", "CA", "CL", "RR"):
+        return {"SA": "EStopApi", "SR": "EStopApiRet", "CA": "ECancel", "CL": "EClose", "RR": "ERunReturn"}[tag]
+    if tag == "F":
+        k, c, i, b = rest.split(",")
+        return "(EFactory %s %d%%N %d%%N %s)" % (coq_id(k), int(c), int(i), BEH[b])
+    if tag == "FE":
+        k, c = rest.split(",")
+        return "(EFactoryErr %s %d%%N)" % (coq_id(k), int(c))
+    if tag in ("RC", "SC", "ST", "N"):
+        return "(%s %d%%N)" % ({"RC": "ERunCall", "SC": "EStopCall", "ST": "EStopRet", "N": "ECount"}[tag], int(rest))
+    if tag == "S":
+        return "(EState %s)" % CSTATE.get(rest, "COther")
+    raise ValueError("event " + tok)
+
+
+def vm_trace_terms(vmlines, fuel):
+    """Check B: the acceptor's verdict on sampled traces of the real Runner, re-evaluated by Coq's VM."""
+    terms, exp, labels = [], [], []
+    for l in vmlines:
+        _, _, name, delay, toks, term = l.split("\t")
+        try:
+            t = C.coq_list([coq_event(x) for x in toks.split(" ") if x])
+        except (ValueError, KeyError):
+            continue      # a token the driver itself reports as BADTRACE
+        d = C.coq_bool(delay == "1")
+        terms.append("let t := %s in (length (fst (accept %s %d t)), snd (accept %s %d t), accepted_prefix %s %d t)" % (
+            t, d, fuel, d, fuel, d, fuel))
+        exp.append(term)
+        labels.append("runner trace %s: %s" % (name, toks))
+    return terms, exp, labels
+
+
+VMT = []    # VMCASE lines of the runner acceptor (check B)
+
+
+def planner_stream(args, stats, lock=None, vm=None):
     """harness (planner mode) | model driver; returns (build_lines, mismatch_lines, ok, tail)."""
     g = subprocess.Popen([os.path.join(C.BIN, "cluster")] + args, stdout=subprocess.PIPE)
-    m = subprocess.Popen([os.path.join(C.BIN, "cluster_model"), "planner"], stdin=g.stdout, stdout=subprocess.PIPE)
+    m = subprocess.Popen([os.path.join(C.BIN, "cluster_model"), "planner"], stdin=g.stdout, stdout=subprocess.PIPE, env=vm)
     g.stdout.close()
     out = m.communicate()[0].decode()
     g.wait()
@@ -54,6 +155,9 @@ def planner_stream(args, stats, lock=None):
             builds.append(line)
         elif line.startswith("MISMATCH\t"):
             mism.append(line)
+        elif line.startswith("VMCASE\t"):
+            with (lock or NOLOCK):
+                (VMC if args[1] == "planner-corpus" else VM).append(line)
         elif line.startswith("SUMMARY"):
             with (lock or NOLOCK):
                 for kv in line.split()[1:]:
@@ -237,12 +341,18 @@ def run_batch(args, timeout):
     return scripts, traces, problems
 
 
-def accept_traces(traces, fuel=20000):
+FUEL = 20000
+
+
+def accept_traces(traces, fuel=FUEL, vm=None):
     inp = "".join("T %s %s %s\n" % (n, d, " ".join(strip_trace(toks))) for n, (d, toks) in traces.items())
     p = subprocess.run([os.path.join(C.BIN, "cluster_model"), "runner", str(fuel)], input=inp.encode(),
-                       stdout=subprocess.PIPE, timeout=3000)
+                       stdout=subprocess.PIPE, timeout=3000, env=vm)
     verdict, summ = {}, {}
     for l in p.stdout.decode().splitlines():
+        if l.startswith("VMCASE\t"):
+            VMT.append(l)
+            continue
         t = l.split(" ")
         if t[0] in ("ACCEPT", "REJECT", "INCONCLUSIVE", "BADTRACE"):
             verdict[t[1]] = (t[0], " ".join(t[2:]))
@@ -251,7 +361,7 @@ def accept_traces(traces, fuel=20000):
     return verdict, summ, p.returncode == 0
 
 
-def runner_leg(run, args, stats, samples, timeout=1500):
+def runner_leg(run, args, stats, samples, timeout=1500, vm_stride=40):
     scripts, traces, problems = run_batch(args, timeout)
     # runs in which the process stalled longer than the readiness deadline prove nothing: discarded
     stalled = [n for n, (d, toks) in traces.items() if "TIMING" in toks]
@@ -260,7 +370,7 @@ def runner_leg(run, args, stats, samples, timeout=1500):
         scripts.pop(n, None)
         problems.pop(n, None)
     stats["timing_stalls_discarded"] = stats.get("timing_stalls_discarded", 0) + len(stalled)
-    verdict, summ, ok = accept_traces(traces)
+    verdict, summ, ok = accept_traces(traces, vm=C.vm_env(run.seed, vm_stride))
     if not ok or (scripts and not summ):
         run.violation("harness-failed", {"args": args}, "C16 acceptor driver failed to run", True)
         return
@@ -365,6 +475,7 @@ def run(run):
         return
     quick = run.tier == "quick"
     pstats, samples = {}, []
+    del VM[:], VMC[:], VMT[:]
     builds, mism = [], []
     jobs = []
     corpus = os.path.join(C.VERIF, "corpus", "C16", "planner.txt")
@@ -373,18 +484,25 @@ def run(run):
     if quick:
         jobs += [["-mode", "planner-exh", "-pool", "4", "-shard", str(i), "-shards", "2"] for i in range(2)]
         jobs += [["-mode", "planner-exh", "-pool", "5", "-shard", str(i), "-shards", "64"] for i in range(4)]
-        jobs += [["-mode", "planner-rand", "-n", "2500", "-seed", str(run.seed * 1000 + i)] for i in range(4)]
+        jobs += [["-mode", "planner-rand", "-n", str(run.scaled(2500)), "-seed", str(run.seed * 1000 + i)] for i in range(4)]
     else:
         jobs += [["-mode", "planner-exh", "-pool", "5", "-shard", str(i), "-shards", "32"] for i in range(32)]
         jobs += [["-mode", "planner-rand", "-n", "20000", "-seed", str(run.seed * 1000 + i)] for i in range(16)]
     with cf.ThreadPoolExecutor(max_workers=min(C.NPROC, 12)) as ex:
         lk = threading.Lock()
-        for b, m, ok, tail in ex.map(lambda a: planner_stream(a, pstats, lk), jobs):
+        vme = {True: C.vm_env(run.seed, 1), False: C.vm_env(run.seed, 700 if quick else 20000)}
+        for b, m, ok, tail in ex.map(lambda a: planner_stream(a, pstats, lk, vme[a[1] == "planner-corpus"]), jobs):
             builds += b
             mism += m
             if not ok:
                 run.violation("harness-failed", {"out": tail}, "C16 planner harness or model driver failed to run", True)
     handle_planner(run, builds)
+    # extraction re-validation: corpus operations + a deterministic sample of the others, re-evaluated by Coq's VM
+    VM.sort()
+    vb = [l for l in VM if l.split("\t")[1] == "build"]
+    vo = [l for l in VM if l.split("\t")[1] != "build"]
+    C.vm_crosscheck(run, "cluster-planner", ["Cluster"],
+                    *vm_terms(VMC[:60] + C.vm_thin(vb, 110, run.seed) + C.vm_thin(vo, 70, run.seed)))
     # the F9 witnesses (corpus) are regressions: they must be accepted with the property holding
     wstats = {}
     if os.path.exists(corpus):
@@ -394,8 +512,8 @@ def run(run):
     rstats = {}
     rcorpus = os.path.join(C.VERIF, "corpus", "C16", "runner.txt")
     if os.path.exists(rcorpus):
-        runner_leg(run, ["-file", rcorpus, "-jobs", "4"], rstats, samples)
-    n = 1600 if quick else 24000
+        runner_leg(run, ["-file", rcorpus, "-jobs", "4"], rstats, samples, vm_stride=1)
+    n = run.scaled(1600) if quick else 24000       # anchor drift: escalated budget
     chunk = 800 if quick else 3000
     done = 0
     while done < n:
@@ -403,6 +521,7 @@ def run(run):
                          "-jobs", str(min(C.NPROC, 12))], rstats, samples)
         done += chunk
     handle_planner_ops(run, mism)
+    C.vm_crosscheck(run, "cluster-acceptor", ["Cluster", "ClusterLTS"], *vm_trace_terms(C.vm_thin(VMT, 40, run.seed), FUEL))
     distinct = len(rstats.pop("distinct_traces", set()))
     cov = run.coverage
     cov.update({
